@@ -10,7 +10,7 @@ from __future__ import annotations
 import re
 
 from .. import gen
-from ..core import CaseTimeout, case_deadline, rng_for, short_tb
+from ..core import CaseTimeout, case_deadline, rng_for, short_tb, note_exc
 
 PROP = "C09"
 LEVEL = "exploration"
@@ -182,7 +182,10 @@ def run_case(case, res):
         with case_deadline(40):
             starts = [None] + order
             preds = [("lab-in-ab", lambda nd: str(nd.data) in ("a", "b", "1", "2")),
-                     ("leaf", lambda nd: not nd.children), ("none", lambda nd: False)]
+                     ("leaf", lambda nd: not nd.children), ("none", lambda nd: False),
+                     # predicates that return values: truthiness decides ('' / [] / () / 0 are "no match")
+                     ("children-list", lambda nd: list(nd.children)), ("name-stripped", lambda nd: str(nd.data).strip("ab")),
+                     ("meta-tuple", lambda nd: nd.get_meta("tags", ())), ("count", lambda nd: len(nd.children))]
             for start in starts:
                 for add_self in ([False] if start is None else [False, True]):
                     sub = order if start is None else ([start] if add_self else []) + desc(start)
@@ -316,7 +319,7 @@ def run_case(case, res):
         res.inconc("case watchdog fired")
         return
     except Exception:
-        bad.append("harness/exception: " + short_tb())
+        note_exc(res, bad, "exception escaped from the library: ")
     if bad:
         res.violation(case, "; ".join(bad[:3]), n_bad=len(bad))
 
